@@ -7,6 +7,7 @@ import (
 	"go/types"
 	"math"
 	"math/big"
+	"strings"
 
 	"golang.org/x/tools/go/ssa"
 )
@@ -312,6 +313,14 @@ func (in *Interp) ensureInit(pkg *ssa.Package) {
 	if initFn == nil || len(initFn.Blocks) == 0 {
 		return
 	}
+	pp := pkg.Pkg.Path()
+	for _, pre := range []string{"runtime", "reflect", "internal/", "os", "syscall", "crypto/", "net", "sync", "log", "encoding/json",
+		"testing", "golang.org/x/sys", "vendor/", "unsafe", "context", "io/fs", "path", "hash", "compress", "mime", "html", "text/", "go/"} {
+		if pp == pre || strings.HasPrefix(pp, pre) && (strings.HasSuffix(pre, "/") || len(pp) == len(pre) || pp[len(pre)] == '/') {
+			return
+		}
+	}
+	in.initBudget = in.steps + 3000000
 	in.inInit++
 	saveStack := in.stack
 	in.stack = nil
@@ -333,6 +342,7 @@ func (in *Interp) ensureInit(pkg *ssa.Package) {
 	}()
 	in.stack = saveStack
 	in.inInit--
+	in.initBudget = in.steps + 3000000 // remaining budget of an enclosing initialiser
 }
 
 const maxDepth = 400
@@ -376,6 +386,9 @@ func (in *Interp) run(fr *frame) Value {
 		var next *ssa.BasicBlock
 		for _, ins := range blk.Instrs {
 			in.steps++
+			if in.inInit > 0 && in.steps > in.initBudget {
+				in.end("budget", "package init budget exceeded")
+			}
 			if in.inInit == 0 {
 				in.pathFuncs[fr.fn.String()]++
 				if in.steps > cfg.MaxSteps {
@@ -417,7 +430,11 @@ func (in *Interp) run(fr *frame) Value {
 				v := in.get(fr, x.X)
 				in.end("panic", "explicit panic: "+in.describe(v))
 			default:
-				in.exec(fr, ins)
+				if in.inInit > 0 && (fr.fn.Synthetic == "package initializer" || strings.HasPrefix(fr.fn.Name(), "init#")) {
+					in.execLenient(fr, ins)
+				} else {
+					in.exec(fr, ins)
+				}
 			}
 		}
 		if next == nil {
@@ -434,6 +451,31 @@ func (in *Interp) run(fr *frame) Value {
 			}
 		}
 	}
+}
+
+// execLenient is used while running package initialisers: an instruction the
+// engine cannot execute (reflection, runtime hooks, OS access) leaves the
+// zero value of its type and initialisation continues, so that the ordinary
+// variables of the package still get their values.
+func (in *Interp) execLenient(fr *frame, ins ssa.Instruction) {
+	defer func() {
+		if r := recover(); r != nil {
+			if v, ok := ins.(ssa.Value); ok {
+				func() {
+					defer func() {
+						if recover() != nil {
+							fr.regs[fr.idx[v]] = Pointer{}
+						}
+					}()
+					fr.regs[fr.idx[v]] = in.zero(v.Type())
+				}()
+			}
+			in.eng.mu.Lock()
+			in.eng.notes["init: instruction skipped in "+fr.fn.String()]++
+			in.eng.mu.Unlock()
+		}
+	}()
+	in.exec(fr, ins)
 }
 
 func (in *Interp) batchPhis(fr *frame, blk, prev *ssa.BasicBlock) {
@@ -745,15 +787,26 @@ func (in *Interp) binopTerm(op token.Token, xt types.Type, a, b *Term, yt types.
 	case token.SUB:
 		return ts.Sub(a, b)
 	case token.MUL:
-		return ts.Mul(a, b)
-	case token.QUO:
-		in.must(ts.Not(ts.Eq(b, ts.Const(w, 0))), "integer divide by zero")
-		if signed {
-			return ts.bin(OSDiv, a, b)
+		if nw := in.narrowMul(a, b); nw > 0 {
+			return ts.Zext(ts.Mul(ts.Extract(a, nw-1, 0), ts.Extract(b, nw-1, 0)), w)
 		}
-		return ts.bin(OUDiv, a, b)
-	case token.REM:
+		return ts.Mul(a, b)
+	case token.QUO, token.REM:
 		in.must(ts.Not(ts.Eq(b, ts.Const(w, 0))), "integer divide by zero")
+		// operands provably small and non-negative: divide at a narrower width
+		if nw := in.narrowW(a, b); nw > 0 && nw < w {
+			na, nb := ts.Extract(a, nw-1, 0), ts.Extract(b, nw-1, 0)
+			if op == token.QUO {
+				return ts.Zext(ts.bin(OUDiv, na, nb), w)
+			}
+			return ts.Zext(ts.bin(OURem, na, nb), w)
+		}
+		if op == token.QUO {
+			if signed {
+				return ts.bin(OSDiv, a, b)
+			}
+			return ts.bin(OUDiv, a, b)
+		}
 		if signed {
 			return ts.bin(OSRem, a, b)
 		}
@@ -793,6 +846,38 @@ func (in *Interp) binopTerm(op token.Token, xt types.Type, a, b *Term, yt types.
 	}
 	in.unsupported("int binop " + op.String())
 	return nil
+}
+
+// narrowW returns a width (8,16,32) at which both operands fit as
+// non-negative numbers, or 0.
+func (in *Interp) narrowW(a, b *Term) int {
+	if a.IsConst() && b.IsConst() {
+		return 0
+	}
+	_, ah := in.ival(a)
+	_, bh := in.ival(b)
+	for _, nw := range []int{8, 16, 32} {
+		lim := uint64(1) << uint(nw-1)
+		if nw < a.Sort.W && ah < lim && bh < lim {
+			return nw
+		}
+	}
+	return 0
+}
+
+func (in *Interp) narrowMul(a, b *Term) int {
+	if a.IsConst() || b.IsConst() {
+		return 0
+	}
+	_, ah := in.ival(a)
+	_, bh := in.ival(b)
+	for _, nw := range []int{16, 32} {
+		lim := uint64(1) << uint(nw/2-1)
+		if nw < a.Sort.W && ah < lim && bh < lim {
+			return nw
+		}
+	}
+	return 0
 }
 
 func (in *Interp) fpBinop(op token.Token, a, b *Term) Value {
@@ -1107,6 +1192,11 @@ func (in *Interp) invoke(fnv Value, args []Value, cc *ssa.CallCommon, site *ssa.
 	case *Closure:
 		if f == nil {
 			in.end("panic", "call of nil function")
+		}
+		if f.Fn.Synthetic == "package initializer" {
+			// imported package initialisers: run once, lazily, subject to the skip list
+			in.ensureInit(f.Fn.Pkg)
+			return nil
 		}
 		if r, ok := in.intrinsic(f.Fn, args, site); ok {
 			return r
